@@ -259,7 +259,7 @@ def check_endtag(F, s, A):
     na = N(atom)
     hdr_total = fld(fld(deref(inner), 0), 0)
     is_plen = (na[0] == "saturating" and na[1] == "Sub" and na[2] == (hdr_total, ("c", 8))) or \
-        (na == ("bin", "Sub", hdr_total, ("c", 8)))
+        (na == ("bin", "Sub", hdr_total, ("c", 8))) or na == ("len", payload)   # len(payload) is the structure's own extent (I-DSS)
     if c != 1 or not is_plen:
         return False, "offset atom %s" % G.show(atom)[:100]
     return True, ("read at payload.as_ptr() + P - 8 for 8 bytes with P = payload_len = len(payload) (I-DSS, C14.B4): start >= payload - 8 = structure base "
